@@ -371,6 +371,12 @@ def check(ctx: Ctx) -> list[RuleResult]:
             capped = isinstance(a, ast.Assign) and isinstance(v, ast.Call) and norm(v.func) == "min" and len(v.args) >= 2 and any(model.level in (reads(x) | model._deps(x)) for x in v.args) and any(model.level not in (reads(x) | model._deps(x)) and (model.stamp or "") not in (reads(x) | model._deps(x)) for x in v.args)
             if not capped:
                 capped = isinstance(a, ast.Assign) and isinstance(v, ast.IfExp)  # a conditional spelling of min(): accepted as is
+            if not capped and not isinstance(a, (ast.Assign, ast.AugAssign, ast.AnnAssign)):
+                # the top-up lives in a local helper the statement calls: the helper's own assignment of the level is what counts
+                for h in model.helpers.values():
+                    for y in ast.walk(h):
+                        if isinstance(y, ast.Assign) and any(norm(t) == model.level for t in y.targets) and isinstance(y.value, (ast.Call, ast.IfExp)) and (isinstance(y.value, ast.IfExp) or norm(y.value.func) == "min"):
+                            capped = True
             if not capped:
                 # a clamp right after: level = min(level, CAP)
                 fwd = cfgx.reachable_from(rf.id)
